@@ -197,6 +197,12 @@ def check(ctx):
                         for x, y in ((a, b), (b, a)):
                             m[('==', x, y)] = T.TRUE if v else T.FALSE
                             m[('!=', x, y)] = T.FALSE if v else T.TRUE
+                    # a rank is a non-negative integer: `rank > 0`, `rank >= 1`, `0 < rank` say "not the root"
+                    root, notroot = (T.TRUE, T.FALSE) if eq_root else (T.FALSE, T.TRUE)
+                    for c_ in (('>', rank, T.ZERO), ('<', T.ZERO, rank), ('>=', rank, T.ONE), ('<=', T.ONE, rank)):
+                        m[c_] = notroot
+                    for c_ in (('<=', rank, T.ZERO), ('>=', T.ZERO, rank), ('<', rank, T.ONE), ('>', T.ONE, rank)):
+                        m[c_] = root
                     return T.subst(newmode, m)
                 ok = case(True, True) in (cbm, silent) and case(True, False) in (cbm, silent) and \
                     case(False, True) == cbm and case(False, False) == silent
@@ -260,6 +266,122 @@ def check(ctx):
             ctx.guard('R6', fsite(f), r6)
     ctx.count('serialize functions checked for throwing string operations', nser, 11)
 
+    # ---------------------------------------------------------------- R7 printing terminates
+    # a loop of the reporting code that is not a counting loop must advance a loop-carried position on every
+    # path back to its head; `first = std::adjacent_find(first, end, pred)` does not: the algorithm returns its
+    # first argument when the first pair matches, the loop then repeats with identical state and the verbose
+    # run never returns while the silent run completes
+    RANGE_ALGS = ('adjacent_find', 'find', 'find_if', 'find_if_not', 'lower_bound', 'upper_bound', 'search',
+                  'mismatch', 'partition_point', 'is_sorted_until', 'min_element', 'max_element', 'find_first_of')
+
+    def lower(t, pre, loops, depth=0):
+        """k such that t >= pre + k is certain (None: nothing known); positions of iterators are compared"""
+        if depth > 12:
+            return None
+        if t == pre:
+            return 0
+        if isinstance(t, tuple) and t and t[0] == 'iter':
+            return lower(t[2], pre[2] if isinstance(pre, tuple) and pre and pre[0] == 'iter' else pre, loops, depth + 1)
+        if not isinstance(t, tuple) or not t:
+            return None
+        d = T.diff(t, pre)
+        if d is not None and T.is_num(d):
+            return d[1]
+        if t[0] == '+' and T.is_num(t[2]):
+            k = lower(t[1], pre, loops, depth + 1)
+            return None if k is None else k + t[2][1]
+        if t[0] == '+' and T.is_num(t[1]):
+            k = lower(t[2], pre, loops, depth + 1)
+            return None if k is None else k + t[1][1]
+        if t[0] == 'ite':
+            a_, b_ = lower(t[2], pre, loops, depth + 1), lower(t[3], pre, loops, depth + 1)
+            return None if a_ is None or b_ is None else min(a_, b_)
+        if t[0] == 'ext' and len(t) > 3 and t[1] in RANGE_ALGS:
+            return lower(t[3], pre, loops, depth + 1)       # the result is in [first argument, last argument]
+        if t[0] == 'havoc' and len(t) == 3 and isinstance(t[1], int) and t[1] < len(loops):
+            # value of a variable after an inner loop that is not a counting loop: it never decreases in there if
+            # every pass adds a non-negative constant or assigns another variable that never decreases
+            il = loops[t[1]]
+            u = il.updates.get(t[2])
+            if u is None:
+                return None
+
+            def monotone(u_, seen=()):
+                dd = T.diff(u_['next'], u_['pre'])
+                if dd is not None and T.is_num(dd) and dd[1] >= 0:
+                    return [u_['init']]
+                for lab2, u2 in il.updates.items():
+                    if lab2 in seen:
+                        continue
+                    # assigned (a non-negative constant above) the value of another non-decreasing variable
+                    d2 = T.diff(u_['next'], u2['pre'])
+                    if d2 is not None and T.is_num(d2) and d2[1] >= 0:
+                        inner = monotone(u2, seen + (lab2,))
+                        if inner is not None:
+                            return [u_['init']] + inner
+                return None
+            starts = monotone(u, (t[2],))
+            if starts is None:
+                return None
+            ks = [lower(x, pre, loops, depth + 1) for x in starts]
+            return None if any(k is None for k in ks) else min(ks)
+        return None
+
+    def progress(nxt, pre, pc, loops=()):
+        # 'yes' | 'stall' (a path on which the position provably may stay) | 'unknown'
+        k = lower(nxt, pre, loops)
+        if k is not None and k >= 1:
+            return 'yes'
+        if isinstance(nxt, tuple) and nxt and nxt[0] == 'ite':
+            a = progress(nxt[2], pre, pc + (nxt[1],), loops)
+            b = progress(nxt[3], pre, pc + (T.lnot(nxt[1]),), loops)
+            if a == b:
+                return a
+            return 'stall' if 'stall' in (a, b) and 'unknown' not in (a, b) else 'unknown'
+        if isinstance(nxt, tuple) and len(nxt) > 3 and nxt[0] == 'ext' and nxt[1] in RANGE_ALGS and nxt[3] == pre:
+            differs = any(c in (('!=', nxt, pre), ('!=', pre, nxt), ('not', ('==', nxt, pre)), ('not', ('==', pre, nxt)))
+                          for c in pc)
+            return 'yes' if differs else 'stall'
+        if k == 0 and nxt == pre:
+            return 'stall'
+        return 'unknown'
+    nloops = 0
+    for f in list(instances(p, 'hep::multi_channel_summary')) + list(instances(p, 'hep::make_list_of_ranges')) + \
+            list(p.find('hep::minimal_weight_channels')) + list(instances(p, 'hep::callback::operator()')):
+        ctx.analysed(f)
+
+        def r7(f=f):
+            nonlocal nloops
+            s, ex = summarise(p, f, opaque=set(CB_OPAQUE) if f.name == 'operator()' else set())
+            for l in s.loops:
+                if l.func is not f:
+                    continue
+                nloops += 1
+                w = '%s:%s' % (l.node.where(), f.name)
+                if l.lo is not None and l.hi is not None:
+                    ctx.holds('R7.loops_make_progress', w, 'counting loop over [%s, %s)' % (T.pretty(l.lo)[:40],
+                                                                                             T.pretty(l.hi)[:40]))
+                    continue
+                verdicts = {}
+                for lab, u in l.updates.items():
+                    if u['next'] == u['pre']:
+                        continue
+                    verdicts[lab] = progress(u['next'], u['pre'], (), s.loops)
+                if any(v == 'yes' for v in verdicts.values()):
+                    ctx.holds('R7.loops_make_progress', w, 'the position %s advances on every path back to the loop head'
+                              % [k for k, v in verdicts.items() if v == 'yes'][0])
+                elif any(v == 'stall' for v in verdicts.values()):
+                    lab = [k for k, v in verdicts.items() if v == 'stall'][0]
+                    ctx.violation('R7.loops_make_progress', w, 'the loop does not advance: `%s` is reassigned a position '
+                                  'that can equal its old value (a search that starts at the old position returns it '
+                                  'when the first element / pair already matches); the next iteration then repeats with '
+                                  'identical state and the printing never returns' % lab,
+                                  {'next_value': T.pretty(l.updates[lab]['next'])[:300]})
+                else:
+                    raise AnalysisBroken('loop at %s is neither a counting loop nor one whose progress is recognised'
+                                         % l.node.where())
+        ctx.guard('R7', fsite(f), r7)
+    ctx.count('loops of the reporting code', nloops, 1)
     # ---------------------------------------------------------------- R5 printing stays in range
     # every checked element access (.at / .front / .back) made while printing must be in range for
     # every state a run can reach: an exception in a verbose mode aborts a run that the silent
